@@ -176,7 +176,7 @@ def Tree.addNode (t : Tree) (next : NodeId) (parent : NodeId) (src : T) (srcInTh
   let deep := deep.getD false
   if deep && did?.isSome then (t, next, some .value)
   else if srcInThisTree && srcParent == some parent then (t, next, some .unique)
-  else if (match did? with | some d => d.truthy && d != src.did | none => false) then (t, next, some .unique)
+  else if (match did? with | some d => d != src.did | none => false) then (t, next, some .unique)   -- `data_id is not None and data_id != source's`
   else
     -- the copy keeps the source's data_id unless an (equal) one is given
     let did := some (did?.getD src.did)
